@@ -680,6 +680,7 @@ for i, sg, tag, lo, hi, tier in C20_CONC:
 C20_UNB = [
     (I(64, 1), 'i', 'r5', [0xfffffffffffffffe], [2]), (I(64, 1), 'u', 'p2p1', [0], [0x100000000]), (I(32, 2), 'u', 'r3', [0xffffffff, 0], [1, 1]), (I(16, 2), 'u', 'p2', [0, 0], [0xffff, 0]),
     (I(32, 1), 'u', 'r3', [5], [7]), (I(8, 4), 'i', 'r7', [0xfd, 0xff, 0xff, 0xff], [3, 0, 0, 0]),
+    (I(8, 3), 'u', 'r5', [0xfe, 0xff, 0x00], [0x02, 0x00, 0x01]), (I(16, 3), 'i', 'r3', [0xffff, 0xffff, 0xffff], [1, 0, 0]), (I(8, 5), 'u', 'p2p1', [0, 0, 0, 0, 0], [0, 0, 1, 0, 0]),
 ]
 for i, sg, tag, lo, hi in C20_UNB:
     T = i.U if sg == 'u' else i.I
